@@ -72,3 +72,22 @@ package contracts
 //@   pure
 //@ extern func (a *net.UDPAddr) Network() (s string)
 //@   pure
+
+//@ extern func (e binary.littleEndian) Uint64(b []byte) (r uint64)
+//@   pure
+//@   requires len(b) >= 8
+//@   ensures r == b[0] + 256*b[1] + 65536*b[2] + 16777216*b[3] + 4294967296*b[4] + 1099511627776*b[5] + 281474976710656*b[6] + 72057594037927936*b[7]
+//@ extern func (e binary.littleEndian) PutUint64(b []byte, v uint64)
+//@   requires len(b) >= 8
+//@   modifies b[*]
+//@   ensures b[0] == v % 256 && b[1] == (v / 256) % 256 && b[2] == (v / 65536) % 256 && b[3] == (v / 16777216) % 256 && b[4] == (v / 4294967296) % 256 && b[5] == (v / 1099511627776) % 256 && b[6] == (v / 281474976710656) % 256 && b[7] == (v / 72057594037927936) % 256
+//@   ensures forall i mathint :: {b[i]} 8 <= i && i < len(b) ==> b[i] == old(b[i])
+//@ extern func (e binary.bigEndian) Uint64(b []byte) (r uint64)
+//@   pure
+//@   requires len(b) >= 8
+//@   ensures r == b[7] + 256*b[6] + 65536*b[5] + 16777216*b[4] + 4294967296*b[3] + 1099511627776*b[2] + 281474976710656*b[1] + 72057594037927936*b[0]
+//@ extern func (e binary.bigEndian) PutUint64(b []byte, v uint64)
+//@   requires len(b) >= 8
+//@   modifies b[*]
+//@   ensures b[7] == v % 256 && b[6] == (v / 256) % 256 && b[5] == (v / 65536) % 256 && b[4] == (v / 16777216) % 256 && b[3] == (v / 4294967296) % 256 && b[2] == (v / 1099511627776) % 256 && b[1] == (v / 281474976710656) % 256 && b[0] == (v / 72057594037927936) % 256
+//@   ensures forall i mathint :: {b[i]} 8 <= i && i < len(b) ==> b[i] == old(b[i])
